@@ -86,10 +86,26 @@ def run(ctx):
                 continue
             if isinstance(n, ast.Raise):
                 okr = "FIXError" in unparse(n) and "no price / qty change" in unparse(n)
+                if okr:
+                    # 'nothing changed' is decided by exact equality with the order's current price and quantity (a tolerance would refuse real changes)
+                    gfs = path_facts(g, g.ids_of(n)[0])
+                    exact = {a for a, tv in gfs if tv and re.fullmatch(r"\w+ == self\.(price|qty)", a)}
+                    calls_in_guard = any(isinstance(x, ast.Call) for t_, lab_ in g.guards(g.ids_of(n)[0], exc=False) if lab_ == "true" and "self.price" in unparse(t_) for x in ast.walk(t_))
+                    okr = len(exact) == 2 and not calls_in_guard
                 ctx.instance(R3, f"{b}[raise {short(n.exc, 40)}]", okr, f"`{short(n)}`: an undocumented failure after the gate said the request is permitted", loc(n))
             if isinstance(n, ast.Assert):
                 oka = unparse(n.test) == "not self.orig_clord_id"
                 ctx.instance(R3, f"{b}[assert {short(n.test, 40)}]", oka, f"`{short(n)}`: an assertion other than the idle-pair invariant can fail after the gate permitted the request", loc(n))
+        # a requested value is replaced by the current one only when it is absent, not finite, zero or *exactly* equal (no tolerance: a small real change must go out)
+        for n in walk_no_nested(fn):
+            if isinstance(n, ast.If) and len(n.body) == 1 and isinstance(n.body[0], ast.Assign) and re.fullmatch(r"(\w+) = self\.\1", unparse(n.body[0])):
+                var = unparse(n.body[0].targets[0])
+                atoms = n.test.values if isinstance(n.test, ast.BoolOp) and isinstance(n.test.op, ast.Or) else [n.test]
+                allowed = {f"{var} is None", f"not isfinite({var})", f"{var} == self.{var}", f"{var} == 0", f"not math.isfinite({var})"}
+                extra = [unparse(a) for a in atoms if unparse(a) not in allowed]
+                ctx.instance(R3, f"{b}[{var} kept only when absent / not finite / equal]", not extra,
+                             f"{b} drops the requested {var} when `{extra[0] if extra else ''}`: a real change within that tolerance is silently not sent, or the request is refused "
+                             "with 'no price / qty change' although can_replace() is True and the values differ", loc(n))
         # tags written at most once (helpers inlined)
         tags = []
         msgvar = None
@@ -157,6 +173,9 @@ def run(ctx):
     users = [q for q, c in res.call_sites(f"{CLS}.clord_next")]
     ctx.instance(R4, "clord_next[callers]", sorted(users) == sorted([f"{CLS}.new_req", f"{CLS}.cancel_req", f"{CLS}.replace_req"]),
                  f"clord_next is called from {sorted(users)}", loc(cn))
+    ow = sorted(q for q in res.writers_of("order_id") if q.startswith(CLS + "."))
+    ctx.instance(R7, "order_id[taken from execution reports only]", ow == [f"{CLS}.__init__", f"{CLS}.process_execution_report"],
+                 f"order_id is written by {ow}: an OrderCancelReject may carry 'NONE' / another id for the same order, absorbing it breaks the order's OrderID", loc(repo.func(f"{CLS}.__init__")))
     cr = repo.func(f"{CLS}.clord_root")
     cparam = cr.args.args[-1].arg
     mname = next((unparse(n.targets[0]) for n in walk_no_nested(cr) if isinstance(n, ast.Assign) and isinstance(n.targets[0], ast.Name)
